@@ -14,7 +14,7 @@
      4. size_hint brackets the number of items still to come (upstream hints truthful).
    Upstream scripts may contain End in the middle (a source that resumes after reporting
    the end), so clause 3 is a theorem about the combinator, not an assumption. *)
-From HV Require Import Pull.Model Pull.PCore Pull.POne Pull.PTwo Pull.PSpec.
+From HV Require Import Pull.Model Pull.PCore Pull.POne Pull.PTwo Pull.PSpec Pull.PCompose Pull.Corr Pull.PSound.
 Open Scope N_scope.
 
 Theorem C11_map : forall (A B : Type) (uh : script A -> hintT), truthful uh -> forall f : A -> B,
@@ -156,6 +156,44 @@ Print Assumptions C11_run_fuel_iff.
 Theorem C11_source_truthful : forall (A : Type) lo hi, truthful (@slack_hint A lo hi).
 Proof. intros A lo hi. exact (slack_truthful lo hi). Qed.
 Print Assumptions C11_source_truthful.
+
+(* ---- composition: a combinator over a combinator ---- *)
+(* What an outer combinator sees of an inner one is the inner machine's answers, poll for poll
+   ([beh inner n s], n = any horizon at least the length of the inner run).  The spec of the
+   outer combinator then gives items = ref_outer (ref_inner ..) and the prefix property for the
+   pipeline; [embed] builds the outer state from its upstream script. *)
+Theorem C11_compose : forall (A B : Type) (inner : machine A) (outer : machine B)
+    (pre fin : St outer -> Prop) (ref : St outer -> list B)
+    (embed : script A -> St outer) (refo : list A -> list B),
+  C11_spec outer pre fin ref ->
+  (forall l, ref (embed l) = refo (items l)) ->
+  forall s out s', runs_to inner s out s' ->
+  exists n0, forall n, (n0 <= n)%nat -> pre (embed (beh inner n s)) ->
+    (exists s'', runs_to outer (embed (beh inner n s)) (refo out) s'') /\
+    (forall k, exists rest, refo out = emitted (polls outer k (embed (beh inner n s))) ++ rest).
+Proof. exact @C11_compose. Qed.
+Print Assumptions C11_compose.
+
+(* a scripted source over the behaviour script replays the inner machine exactly *)
+Theorem C11_beh_replays : forall (B : Type) (m : machine B) uh k n s, (k <= n)%nat ->
+  map snd (polls (src_m uh) k (beh m n s)) = map snd (polls m k s).
+Proof. exact @beh_replays. Qed.
+Print Assumptions C11_beh_replays.
+
+(* fusedness composes: an inner machine that stays ended is a fused upstream *)
+Theorem C11_compose_fused : forall (B : Type) (m : machine B) s out s',
+  runs_to m s out s' -> ended_forever m s' -> forall n, fused_b (beh m n s) = true.
+Proof. exact @beh_fused. Qed.
+Print Assumptions C11_compose_fused.
+
+(* ---- the executable form used by the check is sound for the statements above ---- *)
+Theorem C11_checker_sound : forall c t, C11_holds_b c t = true -> pre_case c = true ->
+  tr_items t = Some (ref_case c) /\
+  (promises_fused c = true ->
+     Forall (fun x => snd x = Ended /\ fst (fst x) = 0) (tr_after_end t)) /\
+  hints_bracket t.
+Proof. exact C11_holds_b_sound. Qed.
+Print Assumptions C11_checker_sound.
 
 (* non-vacuity: concrete scripts with Pend between the two sides of a zip, inside a flat_map's
    inner iterator, and a non-fused source under Fuse *)
